@@ -1,7 +1,124 @@
 import Cherab.Drv.Proto
-open Cherab.Drv
+import Cherab.Model.Instruments
+import Cherab.Gen.InstrumentEdges
+open Cherab.Drv Cherab.Instruments Cherab.Gen.InstrumentEdges
 
-/-- C16 driver: not yet implemented (echo) -/
+/-! C16 driver.  Stateful part: the class-table interpreter over the generated tables (`new`, `call`); stateless part:
+the arithmetic of `Model/Instruments.lean` at `Float`. -/
+
+def ceilF (x : Float) : Int := (Float.ceil x).toInt64.toInt
+
+def infF : Float := 1.0 / 0.0
+
+def shapeChar : Shape → String
+  | .unset => "U" | .none => "N" | .val => "V"
+
+def names (l : List String) (ids : List Nat) : String :=
+  let s := ",".intercalate (ids.map fun i => l.getD i "?")
+  if s.isEmpty then "-" else s
+
+def showSt (t : ClassTable) (s : St) : String :=
+  String.join (s.sh.map shapeChar) ++ " w=" ++ names t.attrs s.written
+
+def showRes (t : ClassTable) : Res → String
+  | .ok s => "ok " ++ showSt t s
+  | .ret s => "ok " ++ showSt t s
+  | .attrErr a s => "AttributeError:" ++ t.attrs.getD a "?" ++ " " ++ showSt t s
+  | .notImpl s => "NotImplementedError " ++ showSt t s
+  | .stuck w => "stuck:" ++ w.replace " " "_"
+
+def findTable (n : String) : Option ClassTable := allTables.find? (·.name == n)
+
+def methodNames (t : ClassTable) : List String := t.methods.map (·.name)
+
+/-- split `k n1 e.. n2 e..` into arrays -/
+partial def takeArrays : Nat → List String → List (List Float)
+  | 0, _ => []
+  | k + 1, ts => match ts with
+    | [] => []
+    | n :: rest => let n := pN n; (rest.take n).map pF :: takeArrays k (rest.drop n)
+
+def hexVal (c : Char) : Nat :=
+  if c.isDigit then c.toNat - '0'.toNat else if 'a' ≤ c ∧ c ≤ 'f' then c.toNat - 'a'.toNat + 10 else 0
+
+def hexDecode (s : String) : String :=
+  if s == "-" then "" else
+  let rec go : List Char → List Char
+    | a :: b :: rest => Char.ofNat (hexVal a * 16 + hexVal b) :: go rest
+    | _ => []
+  String.ofList (go s.toList)
+
+def hexDigit (n : Nat) : Char := if n < 10 then Char.ofNat ('0'.toNat + n) else Char.ofNat ('a'.toNat + n - 10)
+
+def hexEncode (s : String) : String :=
+  if s.isEmpty then "-" else
+  String.ofList (s.toList.flatMap fun c => [hexDigit (c.toNat / 16), hexDigit (c.toNat % 16)])
+
+def showSettings (s : Settings Float) : String := fFs [s.minW, s.maxW, s.step] ++ " " ++ toString s.bins
+
+def protoLine (t : ClassTable) : String :=
+  let cl := t.setters.map fun p => (methodNames t).getD p "?" ++ ":" ++ names t.attrs (clearsOf t p)
+  let dp := (List.range t.attrs.length).map fun c => t.attrs.getD c "?" ++ ":" ++ names (methodNames t) (depsOf t c)
+  "clears " ++ ";".intercalate cl ++ " deps " ++ ";".intercalate dp
+
+def gapsLine (t : ClassTable) : String :=
+  "wf=" ++ fB (wfB t) ++ " covered=" ++ fB (coveredB t) ++ " initTotal=" ++ fB (initTotalB t) ++ " initStatic=" ++ fB (initStaticB t)
+    ++ " gaps=" ++ names t.attrs (initGaps t)
+    ++ " uncovered=" ++ (let l := (uncoveredPairs t).map fun cp => t.attrs.getD cp.1 "?" ++ "<-" ++ (methodNames t).getD cp.2 "?"
+                          if l.isEmpty then "-" else ",".intercalate l)
+    ++ " known=" ++ names t.attrs t.knownUninit
+
+abbrev DSt := Option (ClassTable × St)
+
+def step (σ : DSt) (ts : List String) : DSt × String :=
+  match ts with
+  | ["new", cls] => match findTable cls with
+    | none => (none, "no-table")
+    | some t => let r := construct t; (some (t, (r.state?).getD t.blank), showRes t r)
+  | ["call", m] => match σ with
+    | none => (σ, "no-instance")
+    | some (t, s) => match (methodNames t).idxOf? m with
+      | none => (σ, "no-method")
+      | some i => let r := runMethod t s i; (some (t, (r.state?).getD s), showRes t r)
+  | ["proto", cls] => (σ, match findTable cls with | none => "no-table" | some t => protoLine t)
+  | ["gaps", cls] => (σ, match findTable cls with | none => "no-table" | some t => gapsLine t)
+  | "spec" :: mbpp :: k :: rest =>
+    (σ, match spectralSettings ceilF (takeArrays (pN k) rest) (pN mbpp) with
+        | some s => showSettings s
+        | none => "ValueError")
+  | "valid" :: _ :: es => (σ, fB (validEdges (es.map pF)))
+  | "centres" :: _ :: es => (σ, fFs (centres (es.map pF)))
+  | "poly" :: mbpw :: _ :: rest =>
+    let rec fl : List Float → List (Filter Float)
+      | a :: b :: c :: r => ⟨a, b, c⟩ :: fl r
+      | _ => []
+    (σ, showSettings (polySettings ceilF infF (fl (rest.map pF)) (pN mbpw)))
+  | ["filter", a, b] => let f := filterOf (pF a) (pF b); (σ, fFs [f.minW, f.maxW, f.window])
+  | ["trap", c, w] => let f := trapezoid (pF c) (pF w); (σ, fFs [f.minW, f.maxW, f.window])
+  | ["ctres", cosA, tanA, g, m, dxdp, fl, wl] =>
+    (σ, fF (ctResolution Float.sqrt (pF cosA) (pF tanA) (pF g) (pF m) (pF dxdp) (pF fl) (pF wl)))
+  | ["ctedges", n, w0, cosA, tanA, g, m, dxdp, fl] =>
+    (σ, fFs (ctEdges (ctResolution Float.sqrt (pF cosA) (pF tanA) (pF g) (pF m) (pF dxdp) (pF fl)) (pF w0) (pN n)))
+  | "calib" :: n :: rest =>
+    let n := pN n
+    let es := (rest.take n).map pF
+    let is := (rest.drop n).map pF
+    let tab := (pixels es).zip is
+    let integ (a b : Float) : Float :=
+      match tab.find? fun e => e.1.1.toBits == a.toBits && e.1.2.toBits == b.toBits with
+      | some e => e.2
+      | none => 0.0 / 0.0
+    (σ, fFs (calibrateEdges integ es))
+  | ["calguard", smin, smax, imin, imax] =>
+    (σ, match calibrate (fun _ _ => (0.0 : Float)) (pF smin) (pF smax) (pF imin) (pF imax) [] with
+        | none => "ValueError" | some _ => "ok")
+  | "wsum" :: n :: rest =>
+    let n := pN n
+    (σ, fF (weightedSum ((rest.drop n).map pF) ((rest.take n).map pF)))
+  | ["specnames", nm] => (σ, " ".intercalate ((specPipelineNames (hexDecode nm)).map hexEncode))
+  | "polynames" :: nm :: fs => (σ, " ".intercalate ((polyPipelineNames (hexDecode nm) (fs.map hexDecode)).map hexEncode))
+  | _ => (σ, "bad-op")
+
 def main : IO UInt32 := do
-  loop (stateless fun ts => " ".intercalate ts) (← IO.getStdin) (← IO.getStdout) ()
+  loop step (← IO.getStdin) (← IO.getStdout) none
   return 0
